@@ -9,7 +9,6 @@ import (
 	"fmt"
 	"io"
 	"net"
-	"sync"
 	"time"
 
 	modbus "github.com/aldas/go-modbus-client"
@@ -158,9 +157,7 @@ func RunC1(rc *RunCtx, sc *C1) *C1Outcome {
 	s := NewSim(rc.Sched)
 	s.Tracing = rc.Tracing
 	out := &C1Outcome{}
-	modbus.SimBeforeLock = func(l *sync.RWMutex, write bool) { s.BeforeLock(l, write, "client") }
-	modbus.SimAfterLock = s.AfterLock
-	defer func() { modbus.SimBeforeLock, modbus.SimAfterLock = nil, nil }()
+	defer s.Activate()()
 
 	cl, _ := NewPipe(s, "c")
 	cl.Name = "cli"
